@@ -443,7 +443,8 @@ class Check:
                     rb = sb.run([qb], plan=case["plan"], cwd=cwd)
                     rs = sb.run(["-i"], plan=case["plan"], cwd=cwd, stdin_text=qa + "\n" + qb + "\nexit\n")
                     if ra.status == 0 and rb.status == 0 and not ra.sim and not rb.sim:
-                        if rs.sim or rs.signal is not None or rs.stdout != ra.stdout + rb.stdout:
+                        i_ = rs.stdout.find(ra.stdout)
+                        if rs.sim or rs.signal is not None or i_ < 0 or rs.stdout.find(rb.stdout, i_ + len(ra.stdout)) < 0:
                             viols.append(Violation(PROP, "C01.session", ["C01.session", "second_query_of_a_session_differs", kind],
                                                    {"first": qa, "second": qb, "outcome": rs.summary(), "one_shot_bytes": len(ra.stdout) + len(rb.stdout), "session_bytes": len(rs.stdout)}))
                         ctx.metric("sessions")
